@@ -122,6 +122,22 @@ def k_meta_refuse(ctx, cfg, n, state):
         ctx.fail("fd.metadata_refusal", "long_metadata_packed", f"n={'64' if n == 64 else '>64'}", case, observed=res[:40])
     elif not isinstance(res, ValueError):
         ctx.fail("fd.metadata_refusal", "wrong_error", type(res).__name__, case, error=repr(res))
+    # the same through the documented setter, on a PDU without metadata and on one that already has some (also after a pack)
+    X = C.lib()
+    for start in (None, [1, "0a0b"]):
+        for packed_first in (False, True):
+            def via_setter():
+                pdu = C.build("file_data", cfg, {"offset": 1, "data": "0102", "seg_meta": start})
+                if packed_first:
+                    pdu.pack()
+                pdu.segment_metadata = X.SegmentMetadata(X.RecordContinuationState(state), bytes.fromhex("ab" * n))
+                return bytes(pdu.pack())
+            ok, res = attempt(via_setter)
+            ctx.ev("fd.metadata_refusal")
+            if ok:
+                ctx.fail("fd.metadata_refusal", "long_metadata_packed", f"n={'64' if n == 64 else '>64'}/via_setter", case, observed=res[:40])
+            elif not isinstance(res, ValueError):
+                ctx.fail("fd.metadata_refusal", "wrong_error", f"{type(res).__name__}/via_setter", case, error=repr(res))
 
 
 def k_seglen(ctx, cfg, max_len, meta_len):
